@@ -316,8 +316,17 @@ impl Subscriber for SubscriberService {
             }))
         };
 
+        // The messages signal is edge-triggered: a Pull that looked the subscription up just
+        // before it was deleted would wait for a signal that never comes. The deletion
+        // signal stays set, so it also releases a Pull that starts waiting afterwards.
+        let deleted_fut = async {
+            subscription.deleted().await;
+            Err::<Response<PullResponse>, Status>(subscription_not_found(&subscription_name))
+        };
+
         tokio::select! {
             response = messages_fut => response,
+            response = deleted_fut => response,
             response = timeout_fut => response
         }
     }
@@ -364,7 +373,9 @@ impl Subscriber for SubscriberService {
                     crate::verif::point("stream.after_signal").await;
                     // Then, pull the available messages from the subscription.
                     let pulled = match subscription.pull_messages(max_count).await {
-                        Err(PullMessagesError::Closed) => return,
+                        // The actor only goes away when the subscription is deleted:
+                        // leave the loop so that the stream ends with NOT_FOUND below.
+                        Err(PullMessagesError::Closed) => break,
                         Ok(pulled) => pulled,
                     };
 
